@@ -22,13 +22,19 @@ def thresholds():
 def pipeline_case(draw, rx_strategy, min_rx=1, max_rx=6, n_jobs_choices=(1,), threshold=None,
                   batch=True):
     items = draw(st.lists(rx_strategy, min_size=min_rx, max_size=max_rx))
+    if draw(st.integers(0, 3)) == 0:
+        # the same reaction twice in one batch (identical text), at a drawn position
+        k = draw(st.integers(0, len(items) - 1))
+        items.insert(draw(st.integers(0, len(items))), (items[k][0], list(items[k][1]) + ["duplicate"]))
     rxs = [i[0] for i in items]
     tags = [i[1] for i in items]
     n = len(rxs)
     bs = draw(st.one_of(st.none(), st.integers(1, n + 1))) if batch else None
     nj = draw(st.sampled_from(list(n_jobs_choices)))
     t = draw(threshold) if threshold is not None else 0
-    return {"reactions": rxs, "tags": tags, "batch_size": bs, "n_jobs": nj, "threshold": t}
+    # the reaction column name is configuration: mostly the default, sometimes another key (rows are then dicts)
+    col = draw(st.sampled_from(["reaction", "reaction", "reaction", "rxn", "smiles"]))
+    return {"reactions": rxs, "tags": tags, "batch_size": bs, "n_jobs": nj, "threshold": t, "col": col}
 
 
 def closed_shell_rx(strategy):
@@ -37,9 +43,21 @@ def closed_shell_rx(strategy):
 
 def execute(case):
     """-> (rows, stats, error). error is a string when rebalance raised."""
+    col = case.get("col", "reaction")
     try:
-        rows, stats = pipe.run(case["reactions"], batch_size=case.get("batch_size"),
-                               n_jobs=case.get("n_jobs", 1), threshold=case.get("threshold", 0))
+        data = case["reactions"] if col == "reaction" else [{col: r} for r in case["reactions"]]
+        rows, stats = pipe.run(data, batch_size=case.get("batch_size"), n_jobs=case.get("n_jobs", 1),
+                               threshold=case.get("threshold", 0), reaction_col=col)
+        if col != "reaction":
+            # the oracles read the result under 'reaction'; a row that also carries a stray 'reaction' key is reported
+            fixed = []
+            for r in rows:
+                r2 = dict(r)
+                if "reaction" in r2:
+                    r2["stray_reaction_key"] = r2["reaction"]
+                r2["reaction"] = r.get(col)
+                fixed.append(r2)
+            rows = fixed
         return rows, stats, None
     except Exception as e:  # the API raising on valid input is itself reportable by callers
         return None, None, "%s: %s" % (type(e).__name__, e)
@@ -295,6 +313,15 @@ class PipelineModule:
             rx = [r for j, r in enumerate(rx) if j % spec["of"] == spec["part"]]
             for i in range(0, len(rx), 25):
                 yield fixed_case(rx[i:i + 25], [["corpus"]] * len(rx[i:i + 25]), batch_size=spec.get("batch_size"))
+        elif k == "big-batch":
+            rx = corpus_closed_shell()
+            capped = set(gen.load_reactions_capped("input", 30, 4))
+            rx = [r for r in rx if r in capped]
+            bal = list(gen.load_reactions_capped("balanced", 30, 4))
+            for j, (nj, bs) in enumerate([(4, None), (16, 32), (3, 17)]):
+                chunk = rx[300 + 90 * j: 300 + 90 * j + 60] + bal[200 + 30 * j: 200 + 30 * j + 20]
+                chunk = chunk[::2] + chunk[1::2]   # interleave outcome classes
+                yield fixed_case(chunk, [["big-batch"]] * len(chunk), batch_size=bs, n_jobs=nj)
         elif k in self.extra_enum:
             for c in self.extra_enum[k](spec):
                 yield c
@@ -323,6 +350,8 @@ class PipelineModule:
             out.append({"name": "templates", "kind": "templates", "weight": 20000})
         if heavy:
             out.append({"name": "heavy-elements", "kind": "heavy"})
+        # joblib with real worker pools on batches much larger than the pool (pre-dispatch / auto-batching territory)
+        out.append({"name": "big-batch", "kind": "big-batch", "weight": 4000, "procs": 4})
         if corpus and not q:
             for i in range(8):
                 out.append({"name": "corpus:%d" % i, "kind": "corpus", "part": i, "of": 8, "weight": 10 ** 6})
